@@ -733,6 +733,11 @@ func GetLatestReferenceUpdaterEntry(storer gitstore.Storer, opts ...GetLatestRef
 
 	var targetEntry ReferenceUpdaterEntry
 	for {
+		if options.UntilEntryNumber != 0 && iteratorT.GetNumber() < options.UntilEntryNumber {
+			// The entry is older than the (inclusive) until condition
+			return nil, nil, ErrRSLEntryNotFound
+		}
+
 		switch iterator := iteratorT.(type) {
 		case ReferenceUpdaterEntry:
 			matchesConditions := true
@@ -782,17 +787,15 @@ func GetLatestReferenceUpdaterEntry(storer gitstore.Storer, opts ...GetLatestRef
 			break
 		}
 
+		if len(options.UntilEntryID) != 0 && iteratorT.GetID().Equal(options.UntilEntryID) {
+			// The until condition is inclusive: the entry with this ID has been
+			// examined above and nothing older may be returned
+			return nil, nil, ErrRSLEntryNotFound
+		}
+
 		iteratorT, err = GetParentForEntry(storer, iteratorT)
 		if err != nil {
 			return nil, nil, err
-		}
-
-		if options.UntilEntryNumber != 0 && iteratorT.GetNumber() < options.UntilEntryNumber {
-			return nil, nil, ErrRSLEntryNotFound
-		}
-
-		if len(options.UntilEntryID) != 0 && iteratorT.GetID().Equal(options.UntilEntryID) {
-			return nil, nil, ErrRSLEntryNotFound
 		}
 	}
 
